@@ -195,7 +195,7 @@ def _group_operation(values, operator):
     values_list = list(v for v in values if v is not None)
     if not values_list:
         return None
-    return operator(values_list)
+    return operator(values_list, key=filtering.BsonComparable)
 
 
 def _sum_operation(values):
